@@ -6,6 +6,6 @@ import "vg/mon"
 
 type G = mon.G
 
-func dumpAll() string         { return mon.DumpAll() }
-func parseDump(s string) []G  { return mon.ParseDump(s) }
+func dumpAll() string           { return mon.DumpAll() }
+func parseDump(s string) []G    { return mon.ParseDump(s) }
 func sameBlocked(a, b []G) bool { return mon.SameBlocked(a, b) }
